@@ -18,7 +18,9 @@ def allowedRawSites : List (String × String × String) :=
    ("plugins/Utilities/plugin.py", "Utilities.let", "msg="),
    ("plugins/Misc/plugin.py", "Misc.more", "msg="),
    ("src/drivers/__init__.py", "parseMsg", "string"),
-   ("src/irclib.py", "Irc.feedMsg", "msg=")]
+   ("src/irclib.py", "Irc.feedMsg", "msg="),
+   -- the emulated echo fed back to the plugins (fix b0e0eea): a plain copy, and it is not what is sent
+   ("src/irclib.py", "Irc.takeMsg", "msg=")]
 
 /-- the filter commands a channel op may install as an outFilter: each maps text without CR/LF/NUL
 to text without CR/LF/NUL (letter substitutions, encoders, re-orderings; no decoder) -/
